@@ -237,9 +237,10 @@ theorem bitsM_norm_round (F : Ieee) (h : F.Ok) (mode : Mode) (neg : Bool) (a k w
     rw [e1]; ring
   · simp [hov]
 
-theorem bitsM_over (F : Ieee) (h : F.Ok) (mode : Mode) (neg : Bool) (a : Nat) (e : Int) (ha : a ≠ 0)
+/-- (round 6: value AND flag) above the overflow threshold the specification is `+∞`, flagged "above" -/
+theorem ieeeRoundMagM_over (F : Ieee) (h : F.Ok) (mode : Mode) (neg : Bool) (a : Nat) (e : Int) (ha : a ≠ 0)
     (ht : F.emax + 1 < (bitLen a : Int) + e) :
-    (ieeeRoundMagM F mode neg a e).1 = F.infBits := by
+    ieeeRoundMagM F mode neg a e = (F.infBits, .pos) := by
   have hB := F.B_ge h
   have hL1 := bitLen_pos ha
   rw [F.emax_eq] at ht
@@ -279,6 +280,11 @@ theorem bitsM_over (F : Ieee) (h : F.Ok) (mode : Mode) (neg : Bool) (a : Nat) (e
       have : F.prec - 1 + k = bitLen a - 1 := by unfold Ieee.prec at *; omega
       rw [this]; exact hge
     simp [key _ _ this]
+
+theorem bitsM_over (F : Ieee) (h : F.Ok) (mode : Mode) (neg : Bool) (a : Nat) (e : Int) (ha : a ≠ 0)
+    (ht : F.emax + 1 < (bitLen a : Int) + e) :
+    (ieeeRoundMagM F mode neg a e).1 = F.infBits := by
+  rw [ieeeRoundMagM_over F h mode neg a e ha ht]
 
 end Dashu.Model.Conv
 
